@@ -1,0 +1,245 @@
+//go:build verif
+// +build verif
+
+package pbft
+
+// Stepping API for the model-based checks in /verif (compiled only with -tags verif).
+// Each VerifHandle* call does exactly what the matching select case of receiveRoutine does
+// (wal.Save, then the handler), so a deterministic driver can play any interleaving.
+
+import (
+	"encoding/hex"
+	"io"
+	"sync"
+	"time"
+
+	"github.com/dappledger/AnnChain/gemmill/types"
+)
+
+// VerifTimeout is the exported form of timeoutInfo.
+type VerifTimeout struct {
+	Duration time.Duration
+	Height   int64
+	Round    int64
+	Step     int
+}
+
+func (v VerifTimeout) info() timeoutInfo {
+	return timeoutInfo{Duration: v.Duration, Height: v.Height, Round: v.Round, Step: RoundStepType(v.Step)}
+}
+
+func verifTimeout(ti timeoutInfo) VerifTimeout {
+	return VerifTimeout{Duration: ti.Duration, Height: ti.Height, Round: ti.Round, Step: int(ti.Step)}
+}
+
+// VerifTicker is a synchronous TimeoutTicker: it keeps the single newest tick as timeoutRoutine
+// does (older ticks are ignored, a newer tick replaces the running timer) and fires only when told.
+type VerifTicker struct {
+	mtx   sync.Mutex
+	cur   timeoutInfo
+	armed bool
+	ch    chan timeoutInfo
+	Calls []VerifTimeout // every ScheduleTimeout call, in order
+}
+
+func NewVerifTicker() *VerifTicker { return &VerifTicker{ch: make(chan timeoutInfo)} }
+
+func (t *VerifTicker) Start() (bool, error)     { return true, nil }
+func (t *VerifTicker) Stop() bool               { return true }
+func (t *VerifTicker) Chan() <-chan timeoutInfo { return t.ch }
+func (t *VerifTicker) ScheduleTimeout(newti timeoutInfo) {
+	t.mtx.Lock()
+	defer t.mtx.Unlock()
+	t.Calls = append(t.Calls, verifTimeout(newti))
+	ti := t.cur
+	// same rule as timeoutTicker.timeoutRoutine
+	if newti.Height < ti.Height {
+		return
+	} else if newti.Height == ti.Height {
+		if newti.Round < ti.Round {
+			return
+		} else if newti.Round == ti.Round {
+			if ti.Step > 0 && newti.Step <= ti.Step {
+				return
+			}
+		}
+	}
+	t.cur = newti
+	t.armed = true
+}
+
+// Current returns the last accepted tick and whether its timer is still running.
+func (t *VerifTicker) Current() (VerifTimeout, bool) {
+	t.mtx.Lock()
+	defer t.mtx.Unlock()
+	return verifTimeout(t.cur), t.armed
+}
+
+// Fire lets the running timer expire: the tick becomes a tock in flight (returned to the caller).
+func (t *VerifTicker) Fire() (VerifTimeout, bool) {
+	t.mtx.Lock()
+	defer t.mtx.Unlock()
+	if !t.armed {
+		return VerifTimeout{}, false
+	}
+	t.armed = false
+	return verifTimeout(t.cur), true
+}
+
+// VerifHandlePeer = case mi = <-cs.peerMsgQueue
+func (cs *ConsensusState) VerifHandlePeer(msg ConsensusMessage, peerKey string) {
+	mi := msgInfo{Msg: msg, PeerKey: peerKey}
+	rs := cs.RoundState
+	cs.wal.Save(mi)
+	cs.handleMsg(mi, rs)
+}
+
+// VerifPopInternal takes the next message off internalMsgQueue without handling it.
+func (cs *ConsensusState) VerifPopInternal() (ConsensusMessage, bool) {
+	select {
+	case mi := <-cs.internalMsgQueue:
+		return mi.Msg, true
+	default:
+		return nil, false
+	}
+}
+
+// VerifInternalLen is the number of messages waiting on internalMsgQueue.
+func (cs *ConsensusState) VerifInternalLen() int { return len(cs.internalMsgQueue) }
+
+// VerifHandleInternal = case mi = <-cs.internalMsgQueue (for a message obtained by VerifPopInternal)
+func (cs *ConsensusState) VerifHandleInternal(msg ConsensusMessage) {
+	mi := msgInfo{Msg: msg, PeerKey: ""}
+	rs := cs.RoundState
+	cs.wal.Save(mi)
+	cs.handleMsg(mi, rs)
+}
+
+// VerifHandleTimeout = case ti := <-cs.timeoutTicker.Chan()
+func (cs *ConsensusState) VerifHandleTimeout(v VerifTimeout) {
+	ti := v.info()
+	rs := cs.RoundState
+	cs.wal.Save(ti)
+	cs.handleTimeout(ti, rs)
+}
+
+// VerifStartSync does what OnStart does, except that receiveRoutine is not started
+// (the driver plays its select cases itself): height marker check, catchupReplay, scheduleRound0.
+func (cs *ConsensusState) VerifStartSync() error {
+	cs.BaseService.OnStart()
+	gr, found, err := cs.wal.group.Search("#HEIGHT: ", makeHeightSearchFunc(cs.Height))
+	if (err == io.EOF || !found) && cs.Step == RoundStepNewHeight {
+		rs := cs.RoundStateEvent()
+		cs.wal.Save(rs)
+	} else if err != nil {
+		return err
+	}
+	if gr != nil {
+		gr.Close()
+	}
+	cs.timeoutTicker.Start()
+	rerr := cs.catchupReplay(cs.Height)
+	cs.scheduleRound0(cs.GetRoundState())
+	return rerr
+}
+
+// VerifCloseWAL stops the WAL (flushes and closes the files) without running OnStop.
+func (cs *ConsensusState) VerifCloseWAL() {
+	if cs.wal != nil {
+		cs.wal.Stop()
+	}
+}
+
+// VerifVoteSet is the canonical content of one VoteSet.
+type VerifVoteSet struct {
+	Exists bool
+	Votes  []string // per validator index: hex(BlockID.Hash) ("" = nil vote), "-" = no vote
+	Maj23  string   // "-" none, "" nil, else hex hash
+}
+
+type VerifRoundState struct {
+	Height, Round    int64
+	Step             int
+	Proposal         bool
+	ProposalParts    string // hex of Proposal.BlockPartsHeader.Hash
+	ProposalPOLRound int64
+	ProposalBlock    string // hex hash or "-"
+	PartsHeader      string // hex of ProposalBlockParts header hash or "-"
+	PartsComplete    bool
+	LockedRound      int64
+	LockedBlock      string // hex hash or "-"
+	CommitRound      int64
+	Prevotes         map[int64]VerifVoteSet
+	Precommits       map[int64]VerifVoteSet
+	LastCommitRound  int64
+	LastCommit       VerifVoteSet
+	Proposer         string // hex address of cs.Validators.Proposer()
+	InternalLen      int
+	StoreHeight      int64
+	StateLastHeight  int64
+}
+
+func verifVS(vs *types.VoteSet, n int) VerifVoteSet {
+	out := VerifVoteSet{Maj23: "-"}
+	if vs == nil {
+		return out
+	}
+	out.Exists = true
+	out.Votes = make([]string, n)
+	for i := 0; i < n; i++ {
+		v := vs.GetByIndex(i)
+		if v == nil {
+			out.Votes[i] = "-"
+		} else {
+			out.Votes[i] = hex.EncodeToString(v.BlockID.Hash)
+		}
+	}
+	if id, ok := vs.TwoThirdsMajority(); ok {
+		out.Maj23 = hex.EncodeToString(id.Hash)
+	}
+	return out
+}
+
+// VerifProject returns the part of RoundState the specification talks about.
+func (cs *ConsensusState) VerifProject(maxRound int64) VerifRoundState {
+	cs.mtx.Lock()
+	defer cs.mtx.Unlock()
+	n := cs.Validators.Size()
+	p := VerifRoundState{
+		Height: cs.Height, Round: cs.Round, Step: int(cs.Step),
+		ProposalBlock: "-", PartsHeader: "-", LockedBlock: "-",
+		LockedRound: cs.LockedRound, CommitRound: cs.CommitRound,
+		Prevotes: map[int64]VerifVoteSet{}, Precommits: map[int64]VerifVoteSet{},
+		LastCommitRound: -1, LastCommit: VerifVoteSet{Maj23: "-"},
+		InternalLen:     len(cs.internalMsgQueue),
+		StoreHeight:     cs.blockStore.Height(),
+		StateLastHeight: cs.state.LastBlockHeight,
+	}
+	if cs.Proposal != nil {
+		p.Proposal = true
+		p.ProposalParts = hex.EncodeToString(cs.Proposal.BlockPartsHeader.Hash)
+		p.ProposalPOLRound = cs.Proposal.POLRound
+	}
+	if cs.ProposalBlock != nil {
+		p.ProposalBlock = hex.EncodeToString(cs.ProposalBlock.Hash())
+	}
+	if cs.ProposalBlockParts != nil {
+		p.PartsHeader = hex.EncodeToString(cs.ProposalBlockParts.Header().Hash)
+		p.PartsComplete = cs.ProposalBlockParts.IsComplete()
+	}
+	if cs.LockedBlock != nil {
+		p.LockedBlock = hex.EncodeToString(cs.LockedBlock.Hash())
+	}
+	for r := int64(0); r <= maxRound; r++ {
+		p.Prevotes[r] = verifVS(cs.Votes.Prevotes(r), n)
+		p.Precommits[r] = verifVS(cs.Votes.Precommits(r), n)
+	}
+	if cs.LastCommit != nil {
+		p.LastCommitRound = cs.LastCommit.Round()
+		p.LastCommit = verifVS(cs.LastCommit, cs.LastCommit.Size())
+	}
+	if pr := cs.Validators.Proposer(); pr != nil {
+		p.Proposer = hex.EncodeToString(pr.Address)
+	}
+	return p
+}
